@@ -15,7 +15,7 @@ import re
 
 from common import Rule, V, finish
 from mirlib import short_path, op_const, op_place
-from rulelib import strip_generics, blocks_reachable_from
+from rulelib import strip_generics, blocks_reachable_from, all_loop_exits, loop_exits
 
 PROP = "C20"
 VISIT = "tauri_typegen::analysis::dependency_graph::TypeDependencyGraph::topological_visit"
@@ -359,6 +359,19 @@ def check(ctx):
                 r5.bad(V(r5.id, k.id, "edge-loop-filtered:%s" % recv_name(k, c), "some dependencies are skipped while building %s (%s): an edge that is not counted cannot keep its node out of the order (self-loops, cycles)" % (recv_name(k, c), "; ".join(flt)), c.file, c.line))
             else:
                 r5.ok("%s is updated for every dependency" % recv_name(k, c))
+        # every loop of the algorithm runs to exhaustion: a `break` out of the dequeue loop, or out of the loop over a node's dependents, leaves
+        # nodes with a stale in-degree (never queued: the result is short and acyclic graphs are reported as cyclic) — `?` and the length test
+        # after the loops are not loop exits
+        n_loops = 0
+        for (drv, exits) in all_loop_exits(k):
+            n_loops += 1
+            for (b_, to_, cond_, kind_) in exits:
+                r5.bad(V(r5.id, k.id, "loop-left-early:%s:%s" % (drv.name if drv is not None else "?", kind_),
+                         "a loop of the topological sort (driven by `%s`) is left by `%s` under `%s` before its source is exhausted: dependents whose "
+                         "in-degree was not yet decremented are never queued" % (drv.name if drv is not None else "?", kind_, cond_),
+                         k.blocks[b_]["term"].get("file"), k.blocks[b_]["term"].get("line")))
+        if n_loops:
+            r5.ok("%d loops of resolve_build_order run until their iterator / queue is exhausted" % n_loops)
         # what is pushed under dep.to is dep.from
         pushed = [c for c in k.calls if short_path(c.path) == "Vec::push"]
         okp = any("Dependency.from" in k.describe_origin(k.origin(c.args[1]), deep=2) for c in pushed)
